@@ -144,3 +144,13 @@ impl<'a> IxView<'a> {
 pub fn active_balances(a: &MarginfiAccount) -> Vec<&Balance> {
     a.lending_account.balances.iter().filter(|b| b.active != 0).collect()
 }
+
+/// decimals of a bank's balances: the mint's, except Drift pass-through banks whose balances are
+/// Drift scaled balances (always 9 decimals)
+pub fn balance_decimals(b: &Bank) -> u32 {
+    if b.config.asset_tag == 4 {
+        9
+    } else {
+        b.mint_decimals as u32
+    }
+}
